@@ -33,13 +33,14 @@ class MultichainPolicyIteration(Plans):
             max_iterations=self.max_iterations
         )
         state_gain, action_gain, state_bias, action_bias, _, iterations = results
+        # gain ties are judged with the tolerance the improvement step itself uses
         gain_max_actions = np.isclose(
             action_gain, action_gain.max(-1, keepdims=True),
-            atol=10**(-self.VALUE_DECIMAL_PRECISION),
-            rtol=0
         )
+        # bias-optimal among the gain-optimal actions (lexicographic maximum)
+        gain_max_action_bias = np.where(gain_max_actions, action_bias, float('-inf'))
         bias_max_actions = np.isclose(
-            action_bias, action_bias.max(-1, keepdims=True),
+            gain_max_action_bias, gain_max_action_bias.max(-1, keepdims=True),
             atol=10**(-self.VALUE_DECIMAL_PRECISION),
             rtol=0
         )
